@@ -58,193 +58,9 @@ func runFmt(o *Out, _ *rand.Rand, thorough bool) {
 			continue
 		}
 		sol := sols[len(sols)-1]
-		tainted := !booksConsistent(sol)
-		var out schema.SolutionOutput
-		func() {
-			defer func() {
-				if r := recover(); r != nil {
-					o.Violate(Violation{Property: "C20", Clause: "format-panics", Sig: "C20|format-panics", Detail: fmt.Sprint(r), Replay: c})
-				}
-			}()
-			out = factory.ToSolutionOutput(sol)
-		}()
-		b, _ := json.Marshal(out)
-		var back schema.SolutionOutput
-		if e := json.Unmarshal(b, &back); e != nil {
-			o.Violate(Violation{Property: "C20", Clause: "output-not-parseable", Sig: "C20|output-not-parseable", Detail: e.Error(), Replay: c})
+		back, ok := checkFormat(o, c, bt, sol, c, "", nil)
+		if !ok {
 			continue
-		}
-		viol := func(clause, detail string) {
-			sigx := ""
-			if tainted {
-				sigx = "|books-inconsistent"
-			}
-			o.Violate(Violation{Property: "C20", Clause: clause, Sig: "C20|" + clause + sigx, Detail: detail, Replay: c})
-		}
-		// (1) every input stop exactly once; alternates at most once per vehicle
-		count := map[string]int{}
-		for _, u := range back.Unplanned {
-			count[u.ID]++
-		}
-		altIDs := map[string]bool{}
-		for _, a := range c.Alts {
-			altIDs[a.ID] = true
-		}
-		for vi, v := range back.Vehicles {
-			perVeh := map[string]int{}
-			for _, st := range v.Route {
-				id := st.Stop.ID
-				if strings.HasSuffix(id, "-start") || strings.HasSuffix(id, "-end") {
-					continue
-				}
-				if altIDs[id] {
-					perVeh[id]++
-					if perVeh[id] > 1 {
-						viol("alternate-twice-on-vehicle", fmt.Sprintf("vehicle %d alternate %s", vi, id))
-					}
-					continue
-				}
-				count[id]++
-			}
-		}
-		for _, s := range c.Stops {
-			if count[s.ID] != 1 {
-				viol("stop-not-exactly-once", fmt.Sprintf("stop %s occurs %d times in routes ∪ unplanned", s.ID, count[s.ID]))
-				break
-			}
-		}
-		// (2) custom data unchanged
-		wantCustom := map[string]any{}
-		for _, s := range c.Stops {
-			wantCustom[s.ID] = s.Custom
-		}
-		for _, a := range c.Alts {
-			wantCustom[a.ID] = a.Custom
-		}
-		sameJSON := func(a, b any) bool {
-			x, _ := json.Marshal(a)
-			y, _ := json.Marshal(b)
-			var ax, ay any
-			json.Unmarshal(x, &ax)
-			json.Unmarshal(y, &ay)
-			return reflect.DeepEqual(ax, ay)
-		}
-		checkStopCustom := func(s schema.StopOutput) {
-			if w, ok := wantCustom[s.ID]; ok && !sameJSON(w, s.CustomData) {
-				kind := "stop"
-				if altIDs[s.ID] {
-					kind = "alternate"
-				}
-				viol("custom-data-changed|"+kind, fmt.Sprintf("stop %s custom data %v, input %v", s.ID, s.CustomData, w))
-			}
-		}
-		for _, u := range back.Unplanned {
-			checkStopCustom(u)
-		}
-		vehicles := sol.Vehicles()
-		for vi, v := range back.Vehicles {
-			if vi >= len(c.Vehicles) || vi >= len(vehicles) {
-				viol("vehicle-count", "more vehicles in the output than in the input")
-				break
-			}
-			if !sameJSON(c.Vehicles[vi].Custom, v.CustomData) {
-				viol("custom-data-changed|vehicle", fmt.Sprintf("vehicle %s custom data %v, input %v", v.ID, v.CustomData, c.Vehicles[vi].Custom))
-			}
-			if v.ID != c.Vehicles[vi].ID {
-				viol("vehicle-id", v.ID)
-			}
-			// (3) per-stop values = the solution's own values truncated to whole seconds
-			var stops []nextroute.SolutionStop
-			for _, st := range vehicles[vi].SolutionStops() {
-				if st.ModelStop().Location().IsValid() {
-					stops = append(stops, st)
-				}
-			}
-			if len(stops) != len(v.Route) {
-				viol("route-length", fmt.Sprintf("vehicle %s: %d stops in the output, %d located stops in the solution", v.ID, len(v.Route), len(stops)))
-				continue
-			}
-			cumDist, sumDur := 0, 0
-			for i, ps := range v.Route {
-				st := stops[i]
-				checkStopCustom(ps.Stop)
-				tr := func(f float64) int { return int(f) }
-				if ps.TravelDuration != tr(st.TravelDurationValue()) {
-					viol("travel-duration", fmt.Sprintf("%s: %d vs %v", ps.Stop.ID, ps.TravelDuration, st.TravelDurationValue()))
-				}
-				if ps.CumulativeTravelDuration != tr(st.CumulativeTravelDurationValue()) {
-					viol("cumulative-travel-duration", fmt.Sprintf("%s: %d vs %v", ps.Stop.ID, ps.CumulativeTravelDuration, st.CumulativeTravelDurationValue()))
-				}
-				// durations are differences of instants: exact for whole-second values
-				if isWhole(st.StartValue()) && isWhole(st.EndValue()) && ps.Duration != tr(st.EndValue()-st.StartValue()) {
-					viol("duration", fmt.Sprintf("%s: %d vs %v", ps.Stop.ID, ps.Duration, st.EndValue()-st.StartValue()))
-				}
-				if isWhole(st.StartValue()) && isWhole(st.ArrivalValue()) && ps.WaitingDuration != tr(st.StartValue()-st.ArrivalValue()) {
-					viol("waiting-duration", fmt.Sprintf("%s: %d vs %v", ps.Stop.ID, ps.WaitingDuration, st.StartValue()-st.ArrivalValue()))
-				}
-				if ps.ArrivalTime != nil {
-					if ps.ArrivalTime.Unix() != int64(math.Floor(st.ArrivalValue())) || ps.StartTime.Unix() != int64(math.Floor(st.StartValue())) ||
-						ps.EndTime.Unix() != int64(math.Floor(st.EndValue())) {
-						viol("times", fmt.Sprintf("%s: arrival/start/end %v/%v/%v vs %v/%v/%v", ps.Stop.ID, ps.ArrivalTime.Unix(), ps.StartTime.Unix(),
-							ps.EndTime.Unix(), st.ArrivalValue(), st.StartValue(), st.EndValue()))
-					}
-				}
-				cumDist += ps.TravelDistance
-				sumDur += ps.Duration
-				if ps.CumulativeTravelDistance != cumDist {
-					viol("cumulative-distance", fmt.Sprintf("%s: %d vs prefix sum %d", ps.Stop.ID, ps.CumulativeTravelDistance, cumDist))
-				}
-				// distance of the leg from the input matrix
-				if i > 0 {
-					if want, ok := legDistance(c, bt.d, stops[i-1], st, vi); ok && ps.TravelDistance != want {
-						viol("travel-distance", fmt.Sprintf("%s: %d vs matrix %d", ps.Stop.ID, ps.TravelDistance, want))
-					}
-				}
-			}
-			if v.RouteTravelDuration != int(vehicles[vi].Last().CumulativeTravelDurationValue()) {
-				viol("route-travel-duration", fmt.Sprintf("%s: %d vs %v", v.ID, v.RouteTravelDuration, vehicles[vi].Last().CumulativeTravelDurationValue()))
-			}
-			if isWhole(vehicles[vi].DurationValue()) && v.RouteDuration != int(vehicles[vi].DurationValue()) {
-				viol("route-duration", fmt.Sprintf("%s: %d vs %v", v.ID, v.RouteDuration, vehicles[vi].DurationValue()))
-			}
-			if v.RouteTravelDistance != cumDist || v.RouteStopsDuration != sumDur {
-				viol("route-sums", fmt.Sprintf("%s: distance %d vs %d, stops duration %d vs %d", v.ID, v.RouteTravelDistance, cumDist, v.RouteStopsDuration, sumDur))
-			}
-			// waiting of the route = sum of the stops' waiting, for whole-second schedules whose stops are all located
-			if len(stops) == len(vehicles[vi].SolutionStops()) {
-				w, whole := 0, true
-				for _, ps := range v.Route {
-					w += ps.WaitingDuration
-				}
-				for _, st := range stops {
-					whole = whole && isWhole(st.ArrivalValue()) && isWhole(st.StartValue()) && isWhole(st.EndValue()) && isWhole(st.TravelDurationValue())
-				}
-				if whole && v.RouteWaitingDuration != w {
-					viol("route-waiting-duration", fmt.Sprintf("%s: %d vs sum of waiting %d", v.ID, v.RouteWaitingDuration, w))
-				}
-				// the same legs through the Lean projection model (NR.Format.routeWaiting)
-				if whole && len(stops) > 0 {
-					line := fmt.Sprintf("fmt route %d", int64(stops[0].ArrivalValue())-int64(stops[0].TravelDurationValue()))
-					for _, st := range stops {
-						line += fmt.Sprintf(" %d:%d:%d:%d", int64(st.TravelDurationValue()), int64(st.ArrivalValue()), int64(st.StartValue()), int64(st.EndValue()))
-					}
-					o.Op(line, fmt.Sprintf("fmt route %d", v.RouteWaitingDuration))
-				}
-			}
-		}
-		// (4) objective block
-		sum := 0.0
-		for _, t := range back.Objective.Objectives {
-			sum += t.Value
-			if t.Factor != 0 && math.Abs(t.Base*t.Factor-t.Value) > 1e-6*(1+math.Abs(t.Value)) {
-				viol("objective-base-times-factor", fmt.Sprintf("%s: base %v × factor %v ≠ value %v", t.Name, t.Base, t.Factor, t.Value))
-			}
-		}
-		if math.Abs(sum-back.Objective.Value) > 1e-6*(1+math.Abs(sum)) {
-			viol("objective-total-not-sum", fmt.Sprintf("total %v, sum of terms %v", back.Objective.Value, sum))
-		}
-		if math.Abs(back.Objective.Value-sol.Score()) > 1e-9*(1+math.Abs(sol.Score())) {
-			viol("objective-total-not-score", fmt.Sprintf("total %v, solution score %v", back.Objective.Value, sol.Score()))
 		}
 		planned := 0
 		for _, v := range back.Vehicles {
@@ -264,6 +80,216 @@ func runFmt(o *Out, _ *rand.Rand, thorough bool) {
 			break
 		}
 	}
+}
+
+// checkFormat formats a solution and compares the parsed output with the solution object and the input
+// (C20). `replay` is what a violation stores; `where` tags the signature ("" for the fmt stream).
+func checkFormat(o *Out, c *Case, bt *built, sol nextroute.Solution, replay any, where string, whereOf func(si int) string) (back schema.SolutionOutput, ok bool) {
+	tainted := !booksConsistent(sol)
+	var out schema.SolutionOutput
+	func() {
+		defer func() {
+			if r := recover(); r != nil {
+				o.Violate(Violation{Property: "C20", Clause: "format-panics", Sig: "C20|format-panics", Detail: fmt.Sprint(r), Replay: replay})
+			}
+		}()
+		out = factory.ToSolutionOutput(sol)
+	}()
+	b, _ := json.Marshal(out)
+	// (parsed back into the named result)
+	if e := json.Unmarshal(b, &back); e != nil {
+		o.Violate(Violation{Property: "C20", Clause: "output-not-parseable", Sig: "C20|output-not-parseable", Detail: e.Error(), Replay: replay})
+		return back, false
+	}
+	viol := func(clause, detail string) {
+		sigx := ""
+		if tainted {
+			sigx = "|books-inconsistent"
+		}
+		if where != "" {
+			sigx += "|" + where
+		}
+		o.Violate(Violation{Property: "C20", Clause: clause, Sig: "C20|" + clause + sigx, Detail: detail, Replay: replay})
+	}
+	// (1) every input stop exactly once; alternates at most once per vehicle
+	count := map[string]int{}
+	for _, u := range back.Unplanned {
+		count[u.ID]++
+	}
+	altIDs := map[string]bool{}
+	for _, a := range c.Alts {
+		altIDs[a.ID] = true
+	}
+	for vi, v := range back.Vehicles {
+		perVeh := map[string]int{}
+		for _, st := range v.Route {
+			id := st.Stop.ID
+			if strings.HasSuffix(id, "-start") || strings.HasSuffix(id, "-end") {
+				continue
+			}
+			if altIDs[id] {
+				perVeh[id]++
+				if perVeh[id] > 1 {
+					viol("alternate-twice-on-vehicle", fmt.Sprintf("vehicle %d alternate %s", vi, id))
+				}
+				continue
+			}
+			count[id]++
+		}
+	}
+	for si, s := range c.Stops {
+		if count[s.ID] != 1 {
+			// the signature names how often and in which kind of (root) unit: the known half-planned states
+			// of one-of units (E2) and torn groups (E16) are distinguishable from anything else
+			kind := "?"
+			if bt != nil && bt.d != nil && si < len(bt.d.stopUnit) {
+				u := bt.d.stopUnit[si]
+				for bt.d.parent[u] >= 0 {
+					u = bt.d.parent[u]
+				}
+				kind = bt.d.units[u].Kind
+			}
+			if whereOf != nil {
+				kind += "|" + whereOf(si)
+			}
+			viol(fmt.Sprintf("stop-not-exactly-once|%d-times|%s", count[s.ID], kind), fmt.Sprintf("stop %s occurs %d times in routes ∪ unplanned", s.ID, count[s.ID]))
+			break
+		}
+	}
+	// (2) custom data unchanged
+	wantCustom := map[string]any{}
+	for _, s := range c.Stops {
+		wantCustom[s.ID] = s.Custom
+	}
+	for _, a := range c.Alts {
+		wantCustom[a.ID] = a.Custom
+	}
+	sameJSON := func(a, b any) bool {
+		x, _ := json.Marshal(a)
+		y, _ := json.Marshal(b)
+		var ax, ay any
+		json.Unmarshal(x, &ax)
+		json.Unmarshal(y, &ay)
+		return reflect.DeepEqual(ax, ay)
+	}
+	checkStopCustom := func(s schema.StopOutput) {
+		if w, ok := wantCustom[s.ID]; ok && !sameJSON(w, s.CustomData) {
+			kind := "stop"
+			if altIDs[s.ID] {
+				kind = "alternate"
+			}
+			viol("custom-data-changed|"+kind, fmt.Sprintf("stop %s custom data %v, input %v", s.ID, s.CustomData, w))
+		}
+	}
+	for _, u := range back.Unplanned {
+		checkStopCustom(u)
+	}
+	vehicles := sol.Vehicles()
+	for vi, v := range back.Vehicles {
+		if vi >= len(c.Vehicles) || vi >= len(vehicles) {
+			viol("vehicle-count", "more vehicles in the output than in the input")
+			break
+		}
+		if !sameJSON(c.Vehicles[vi].Custom, v.CustomData) {
+			viol("custom-data-changed|vehicle", fmt.Sprintf("vehicle %s custom data %v, input %v", v.ID, v.CustomData, c.Vehicles[vi].Custom))
+		}
+		if v.ID != c.Vehicles[vi].ID {
+			viol("vehicle-id", v.ID)
+		}
+		// (3) per-stop values = the solution's own values truncated to whole seconds
+		var stops []nextroute.SolutionStop
+		for _, st := range vehicles[vi].SolutionStops() {
+			if st.ModelStop().Location().IsValid() {
+				stops = append(stops, st)
+			}
+		}
+		if len(stops) != len(v.Route) {
+			viol("route-length", fmt.Sprintf("vehicle %s: %d stops in the output, %d located stops in the solution", v.ID, len(v.Route), len(stops)))
+			continue
+		}
+		cumDist, sumDur := 0, 0
+		for i, ps := range v.Route {
+			st := stops[i]
+			checkStopCustom(ps.Stop)
+			tr := func(f float64) int { return int(f) }
+			if ps.TravelDuration != tr(st.TravelDurationValue()) {
+				viol("travel-duration", fmt.Sprintf("%s: %d vs %v", ps.Stop.ID, ps.TravelDuration, st.TravelDurationValue()))
+			}
+			if ps.CumulativeTravelDuration != tr(st.CumulativeTravelDurationValue()) {
+				viol("cumulative-travel-duration", fmt.Sprintf("%s: %d vs %v", ps.Stop.ID, ps.CumulativeTravelDuration, st.CumulativeTravelDurationValue()))
+			}
+			// durations are differences of instants: exact for whole-second values
+			if isWhole(st.StartValue()) && isWhole(st.EndValue()) && ps.Duration != tr(st.EndValue()-st.StartValue()) {
+				viol("duration", fmt.Sprintf("%s: %d vs %v", ps.Stop.ID, ps.Duration, st.EndValue()-st.StartValue()))
+			}
+			if isWhole(st.StartValue()) && isWhole(st.ArrivalValue()) && ps.WaitingDuration != tr(st.StartValue()-st.ArrivalValue()) {
+				viol("waiting-duration", fmt.Sprintf("%s: %d vs %v", ps.Stop.ID, ps.WaitingDuration, st.StartValue()-st.ArrivalValue()))
+			}
+			if ps.ArrivalTime != nil {
+				if ps.ArrivalTime.Unix() != int64(math.Floor(st.ArrivalValue())) || ps.StartTime.Unix() != int64(math.Floor(st.StartValue())) ||
+					ps.EndTime.Unix() != int64(math.Floor(st.EndValue())) {
+					viol("times", fmt.Sprintf("%s: arrival/start/end %v/%v/%v vs %v/%v/%v", ps.Stop.ID, ps.ArrivalTime.Unix(), ps.StartTime.Unix(),
+						ps.EndTime.Unix(), st.ArrivalValue(), st.StartValue(), st.EndValue()))
+				}
+			}
+			cumDist += ps.TravelDistance
+			sumDur += ps.Duration
+			if ps.CumulativeTravelDistance != cumDist {
+				viol("cumulative-distance", fmt.Sprintf("%s: %d vs prefix sum %d", ps.Stop.ID, ps.CumulativeTravelDistance, cumDist))
+			}
+			// distance of the leg from the input matrix
+			if i > 0 {
+				if want, ok := legDistance(c, bt.d, stops[i-1], st, vi); ok && ps.TravelDistance != want {
+					viol("travel-distance", fmt.Sprintf("%s: %d vs matrix %d", ps.Stop.ID, ps.TravelDistance, want))
+				}
+			}
+		}
+		if v.RouteTravelDuration != int(vehicles[vi].Last().CumulativeTravelDurationValue()) {
+			viol("route-travel-duration", fmt.Sprintf("%s: %d vs %v", v.ID, v.RouteTravelDuration, vehicles[vi].Last().CumulativeTravelDurationValue()))
+		}
+		if isWhole(vehicles[vi].DurationValue()) && v.RouteDuration != int(vehicles[vi].DurationValue()) {
+			viol("route-duration", fmt.Sprintf("%s: %d vs %v", v.ID, v.RouteDuration, vehicles[vi].DurationValue()))
+		}
+		if v.RouteTravelDistance != cumDist || v.RouteStopsDuration != sumDur {
+			viol("route-sums", fmt.Sprintf("%s: distance %d vs %d, stops duration %d vs %d", v.ID, v.RouteTravelDistance, cumDist, v.RouteStopsDuration, sumDur))
+		}
+		// waiting of the route = sum of the stops' waiting, for whole-second schedules whose stops are all located
+		if len(stops) == len(vehicles[vi].SolutionStops()) {
+			w, whole := 0, true
+			for _, ps := range v.Route {
+				w += ps.WaitingDuration
+			}
+			for _, st := range stops {
+				whole = whole && isWhole(st.ArrivalValue()) && isWhole(st.StartValue()) && isWhole(st.EndValue()) && isWhole(st.TravelDurationValue())
+			}
+			if whole && v.RouteWaitingDuration != w {
+				viol("route-waiting-duration", fmt.Sprintf("%s: %d vs sum of waiting %d", v.ID, v.RouteWaitingDuration, w))
+			}
+			// the same legs through the Lean projection model (NR.Format.routeWaiting)
+			if whole && len(stops) > 0 {
+				line := fmt.Sprintf("fmt route %d", int64(stops[0].ArrivalValue())-int64(stops[0].TravelDurationValue()))
+				for _, st := range stops {
+					line += fmt.Sprintf(" %d:%d:%d:%d", int64(st.TravelDurationValue()), int64(st.ArrivalValue()), int64(st.StartValue()), int64(st.EndValue()))
+				}
+				o.Op(line, fmt.Sprintf("fmt route %d", v.RouteWaitingDuration))
+			}
+		}
+	}
+	// (4) objective block
+	sum := 0.0
+	for _, t := range back.Objective.Objectives {
+		sum += t.Value
+		if t.Factor != 0 && math.Abs(t.Base*t.Factor-t.Value) > 1e-6*(1+math.Abs(t.Value)) {
+			viol("objective-base-times-factor", fmt.Sprintf("%s: base %v × factor %v ≠ value %v", t.Name, t.Base, t.Factor, t.Value))
+		}
+	}
+	if math.Abs(sum-back.Objective.Value) > 1e-6*(1+math.Abs(sum)) {
+		viol("objective-total-not-sum", fmt.Sprintf("total %v, sum of terms %v", back.Objective.Value, sum))
+	}
+	if math.Abs(back.Objective.Value-sol.Score()) > 1e-9*(1+math.Abs(sol.Score())) {
+		viol("objective-total-not-score", fmt.Sprintf("total %v, solution score %v", back.Objective.Value, sol.Score()))
+	}
+	return back, true
 }
 
 func isWhole(f float64) bool { return f == math.Floor(f) }
